@@ -61,7 +61,7 @@ func callSSA(i *interpreter, caller *frame, callpos token.Pos, fn *ssa.Function,
 	if fn.TypeParams().Len() > 0 && len(fn.TypeArgs()) == 0 {
 		panic("interp requires ssa.BuilderMode to include InstantiateGenerics to execute generics")
 	}
-	if i.path.local == nil && i.world.isPure(fn) && anySymbolic(args) {
+	if i.path.local == nil && !i.noSummary && i.world.isPure(fn) && anySymbolic(args) {
 		i.path.FuncsSeen[fn.String()] = true
 		if r, ok := i.summarize(caller, fn, args, env); ok {
 			return r
